@@ -306,7 +306,7 @@ def run(ctx: Any) -> None:
             streams[(app, ii, "prod")] = W.init(app, "prod", {"limit": 1000, "pad": "p" * (300 if ii % 2 == 0 else 3)}, ident, T0)
             streams[(app, ii, "ex")] = W.init(app, "ex", {"a": ii, "label": f"L{ii}"}, ident, T0)
     second: dict[tuple[str, int, str], tuple[bytes, bytes]] = {}
-    for app in ("cold", "warm"):
+    for app in ("cold",) if quick else ("cold", "warm"):
         for ii in (0, 1, 5):
             second[(app, ii, "prod")] = W.init(app, "prod", {"limit": 1000, "pad": "q" * 40}, IDENTS[ii], T0 + 5)
             second[(app, ii, "ex")] = W.init(app, "ex", {"a": 100 + ii, "label": "second"}, IDENTS[ii], T0 + 5)
@@ -370,7 +370,7 @@ def run(ctx: Any) -> None:
     # 1. every single-bit flip of the token text
     for nb, (app, ii, m) in enumerate(base_sets):
         cur, call = streams[(app, ii, m)]
-        stride = 8 if (quick and nb > 0) else 1  # quick: every position of the first pair of tokens, every 8th of the second
+        stride = 16 if (quick and nb > 0) else 1  # quick: every position of the first pair of tokens, every 16th of the second
         for i in range(0, len(cur), stride):
             for bit in range(8):
                 case("flip-text-cursor", app, m, _flip_text(cur, i, bit), call, IDENTS[ii], T0 + 1, base=cur, cur_sym=("TFlip", cur, i, bit))
@@ -379,7 +379,7 @@ def run(ctx: Any) -> None:
                 case("flip-text-call", app, m, cur, _flip_text(call, i, bit), IDENTS[ii], T0 + 1, base=call, call_sym=("TFlip", call, i, bit))
     # ... cursor flips against the warm app too (the cursor is opened before the cache is consulted)
     cur, call = streams[("warm", AUTHI, "prod")]
-    step = 10 if quick else 1
+    step = 16 if quick else 1
     for i in range(0, len(cur), step):
         for bit in range(8):
             case("flip-text-cursor", "warm", "prod", _flip_text(cur, i, bit), call, IDENTS[AUTHI], T0 + 1, base=cur, cur_sym=("TFlip", cur, i, bit))
@@ -502,6 +502,7 @@ def run(ctx: Any) -> None:
             case("warm-nocall", "warm", m, wcur, None, ident, T0 + 6)
             case("swap-kind", "warm", m, wcall, wcur, ident, T0 + 6)
 
+    NEAR = {0, 3, 4, 8, 9, 10, 13, 14}
     # 7. identity pairs: tokens of i presented by j (all ordered pairs on the cold app; cursor-only check on the warm one)
     for i in range(len(IDENTS)):
         for j in range(len(IDENTS)):
@@ -517,8 +518,16 @@ def run(ctx: Any) -> None:
                     curj, callj = streams[("cold", j, m)]
                     case(cls, "cold", m, curj, call, IDENTS[j], T0 + 1, minted_for=i)
                     case(cls, "cold", m, cur, callj, IDENTS[j], T0 + 1, minted_for=i)
-                    wcur, wcall = streams[("warm", i, m)]
-                    case(cls if cls == "cross-identity" else "genuine", "warm", m, wcur, wcall, IDENTS[j], T0 + 1, minted_for=i)
+            # warm worker (the call-state cache answers for the call token, its key is the UNtagged identity string):
+            # every ordered pair; both methods and also without any call token for the identities whose encodings
+            # nearly coincide (anonymous vs authenticated ""/None + "anonymous", "" + "", None vs "" domains/principals)
+            near = i in NEAR and j in NEAR
+            for m in ("prod", "ex") if (near or not quick) else ("prod",):
+                wcur, wcall = streams[("warm", i, m)]
+                case(cls if cls == "cross-identity" else "genuine", "warm", m, wcur, wcall, IDENTS[j], T0 + 1, minted_for=i)
+                if near:
+                    case(cls if cls == "cross-identity" else "genuine", "warm", m, wcur, None, IDENTS[j], T0 + 1, minted_for=i)
+                    case(cls if cls == "cross-identity" else "genuine", "cold", m, streams[("cold", i, m)][0], streams[("cold", i, m)][1], IDENTS[j], T0 + 1, minted_for=i)
 
     # 8. keys: tokens of every app presented to every app with another key
     key_apps = ["cold", "foreign", "k3", "k4", "k5", "k6"]
@@ -657,6 +666,15 @@ def run(ctx: Any) -> None:
         fk = genuine(c["call"], "call", key, c["ident"])
         nontrivial = not (fc is not None and fc["text"] == c["cur"] and fk is not None and fk["text"] == c["call"] and c["now1"] - fc["created"] in range(0, 3))
         ctx.case([c["app"], c["method"], repr(c["ident"]), c["now1"], c["now2"], c["cancel"], None if c["cur"] is None else hashlib.sha1(c["cur"]).hexdigest(), None if c["call"] is None else hashlib.sha1(c["call"]).hexdigest()], nontrivial=nontrivial)
+        if status == 200 and c["cls"] == "cross-identity":
+            a, b = _norm_ident(IDENTS[c["minted_for"]]), _norm_ident(c["ident"])
+            alias = {a, b} == {None, (b"", b"anonymous")}
+            ctx.violation(
+                "served-cross-identity:anonymous-alias" if alias else "served-cross-identity",
+                "tokens minted for one caller identity were served to a caller with another identity"
+                + (" (unauthenticated vs authenticated ''/None + 'anonymous')" if alias else ""),
+                {**repl, "minted_for": repr(IDENTS[c["minted_for"]])},
+            )
         if status == 200:
             # served  =>  cursor sealed by a key holder for this caller, not older than the TTL, ...
             if fc is None:
